@@ -616,6 +616,11 @@ def run_resample(case):
     exp = []
   try:
     list(resample([Q(1), Q(2), Q(4), Q(8)], Q(3), Q(2), order=p, zero=Q(5)))                   # decoy call
+    # the same ratio with the neighbouring orders first (anything kept per position / ratio between calls
+    # must not leak into a call with another order)
+    for p2 in (p + 1, max(p - 1, 1), p + 2):
+      if p2 != p:
+        list(resample([Q(1), Q(2), Q(4), Q(8), Q(-3), Q(5)], Q(old), Q(new), order=p2, zero=Q(5)))
     xin = [lambda: list(x), lambda: tuple(x), lambda: Stream(list(x)), lambda: iter(list(x)),
            lambda: (v for v in list(x))][(n + p + RATIOS.index((old, new)) + ("const", "stream", "stream-short").index(mode)) % 5]()
     st = resample(xin, order=p, zero=zero, **kw)
